@@ -26,6 +26,7 @@ This format is used by two programs:
 from typing import TextIO
 from warnings import warn
 
+import attrs
 import numpy as np
 from numpy.typing import NDArray
 
@@ -344,13 +345,27 @@ def dump_one(f: TextIO, data: IOData):
         f.write("\n")
 
     # BASIS
+    # The shells must be grouped by center, in the order of the atoms. The rows of the
+    # orbital coefficients are reordered accordingly.
+    shells = data.obasis.shells
+    order = sorted(range(len(shells)), key=(lambda ishell: shells[ishell].icenter))
+    if order != list(range(len(shells))):
+        offsets = np.cumsum([0] + [shell.nbasis for shell in shells])
+        row_order = np.concatenate(
+            [np.arange(offsets[ishell], offsets[ishell + 1]) for ishell in order]
+        ).astype(int)
+        data = attrs.evolve(
+            data,
+            obasis=attrs.evolve(data.obasis, shells=[shells[ishell] for ishell in order]),
+            mo=attrs.evolve(data.mo, coeffs=data.mo.coeffs[row_order]),
+        )
     f.write("$BASIS\n")
     iatom_last = 0
     for shell in data.obasis.shells:
         if shell.ncon != 1:
             raise RuntimeError("Generalized contractions not supported. Call prepare_dump first.")
-        iatom_new = shell.icenter
-        if iatom_new != iatom_last:
+        # One separator for every next atom, also for atoms without basis functions.
+        for _ in range(shell.icenter - iatom_last):
             f.write("$$\n")
         angmom = shell.angmoms[0]
         kind = shell.kinds[0]
